@@ -29,7 +29,7 @@ Contents
   `shadow_sync`, `shadow_sync_run`, `shadow_sync_every_step`, `shadow_sync_run_blank`,
   `shadow_sync_stream`, `shadow_sync_stream_blank`
 * §5 notifications: `cursor_last`, `style_last`, `view_last_flag/int/str`,
-  `notifications_last_stream`, `resize_last`, and `no_scrollLines_emitted_partial` (the
+  `notifications_last_stream`, `resize_last`, and `apply_emits_no_scrollLines` (the
   ScrollLines clause is NOT established in the model: the code calls `ScrollLines` since fix
   715b710, which is checked on the implementation by the harness monitor `scroll-lines`)
 * §6 non-vacuity examples, and an example showing that `InvAlong` cannot be dropped under the
@@ -1831,13 +1831,14 @@ theorem nosl_apply (cw : Nat → Nat) (t : Term) (tok : Tok) : noSL (Term.apply 
 end Lemmas
 open Lemmas
 
-/-- **C10 (5) — ScrollLines: NOT established (known finding).** The clause "rows scrolled off the
-    top of the main screen are announced through ScrollLines before they are lost" does not hold
-    of the implementation: it never calls `ScrollLines`, and accordingly the model emits no
-    `Ev.scrollLines` for any token in any state — which is all this theorem says. A frontend
-    therefore learns of rows leaving the top of the main screen only through the `RegionChanged`
-    of the scroll region (that is enough for the shadow copy above, not for a scrollback). -/
-theorem no_scrollLines_emitted_partial (cw : Nat → Nat) (t : Term) (tok : Tok) :
+/-- **C10 (5) — ScrollLines, part 1.** `Term.apply` itself emits no `Ev.scrollLines` for any token
+    in any state: the announcement of rows leaving the top of the main screen is computed apart
+    from the token's other events (`Term.scrollOff`, `TM/Scrollback.lean`) and `Term.applyS` puts
+    it in front of them. Together with §7 (`scrollLines_announced_iff` and the transcript
+    theorems) this says that `Term.applyS` announces exactly the rows that are lost and nothing
+    else. (Before fix 715b710 the code never called `ScrollLines`; this theorem was then all
+    that could be said, hence its place here.) -/
+theorem apply_emits_no_scrollLines (cw : Nat → Nat) (t : Term) (tok : Tok) :
     ∀ e ∈ (Term.apply cw t tok).2, ∀ n, e ≠ .scrollLines n := by
   intro e he n hn
   have := nosl_apply cw t tok
@@ -1990,7 +1991,7 @@ through the top, and that without an announcement nothing disappears through the
   `applyS_events`, which hold by unfolding), `scroll_tokens_transcript` (LF, FF, IND, SU),
   `dl_transcript`, `scroll_tokens_silent_row0` (LF, FF, IND, SU, DL), `text_transcript_rows`
 
-(`no_scrollLines_emitted_partial` above stays true of `Term.apply`, whose events do not include the
+(`apply_emits_no_scrollLines` above stays true of `Term.apply`, whose events do not include the
 announcement; it is used here to show that `Term.applyS` announces nothing else.) -/
 
 namespace Lemmas
@@ -2498,7 +2499,7 @@ theorem scrollLines_announced_iff (cw : Nat → Nat) (t : Term) (tok : Tok) (n :
     Ev.scrollLines n ∈ (t.applyS cw tok).2 ↔ (n = t.scrollOff cw tok ∧ 0 < n) := by
   rw [applyS_events, List.mem_append]
   have hno : Ev.scrollLines n ∉ (t.apply cw tok).2 :=
-    fun h => no_scrollLines_emitted_partial cw t tok _ h n rfl
+    fun h => apply_emits_no_scrollLines cw t tok _ h n rfl
   constructor
   · rintro (h | h)
     · split at h
@@ -2781,7 +2782,7 @@ end ScrollExamples
 #print axioms TM.C10.view_last_str
 #print axioms TM.C10.notifications_last_stream
 #print axioms TM.C10.resize_last
-#print axioms TM.C10.no_scrollLines_emitted_partial
+#print axioms TM.C10.apply_emits_no_scrollLines
 #print axioms TM.C10.scrollOff_le
 #print axioms TM.C10.scrollOff_pos_iff
 #print axioms TM.C10.scroll_transcript
